@@ -170,7 +170,11 @@ def run_sequences(ctx, binpath, seqs, mode, attempts=3, max_confirm=12):
         if confirmed:
             break
     if not confirmed:
-        raise vlib.Infra("%s: %d sequence failures, none reproduced in %d re-runs" % (ctx.prop, len(bad), attempts))
+        # decided at the end of the run (settle_unreproduced): INFRA unless a reproduced violation exists
+        msg = "%s: %d sequence failures, none reproduced in %d re-runs" % (ctx.prop, len(bad), attempts)
+        ctx.extra.setdefault("unreproduced_bulk", []).append(msg)
+        vlib.log("  " + msg + " (deferred)")
+        return 0
     for i, (why, kf) in confirmed.items():
         rp = {"property": ctx.prop, "case": seqs[i], "record": recs[i], "why": why, "kf": kf, "seed": ctx.seed, "mode": mode}
         ctx.report_bad(seqs[i], why, kf, rp)
